@@ -526,16 +526,17 @@ Definition q_xsi_schema_location : qname :=
   (Some ns_xsi, [115;99;104;101;109;97;76;111;99;97;116;105;111;110]).
 Definition q_xsi_no_ns_schema_location : qname :=
   (Some ns_xsi, [110;111;78;97;109;101;115;112;97;99;101;83;99;104;101;109;97;76;111;99;97;116;105;111;110]).
-Definition root_extra (schema_location no_ns_schema_location : option str) : list (qname * list atom) :=
-  (match schema_location with Some v => [(q_xsi_schema_location, [AText v])] | None => [] end)
-  ++ (match no_ns_schema_location with Some v => [(q_xsi_no_ns_schema_location, [AText v])] | None => [] end).
-Definition add_root_attrs (extra : list (qname * list atom)) (e : enode) : enode :=
-  match e with
-  | EElem q ats ks => EElem q (fold_left (fun acc a => set_attr (fst a) (snd a) acc) ats extra) ks
-  | EData _ => e
+Definition root_extra (schema_location no_ns_schema_location : option str) : list wevent :=
+  (match schema_location with Some v => [WAttr q_xsi_schema_location (VAtom (AText v))] | None => [] end)
+  ++ (match no_ns_schema_location with Some v => [WAttr q_xsi_no_ns_schema_location (VAtom (AText v))] | None => [] end).
+(* ... as if they were the first attribute events of the document element *)
+Definition with_root_attrs (extra : list wevent) (evs : list wevent) : list wevent :=
+  match evs with
+  | WStart q :: r => WStart q :: extra ++ r
+  | _ => evs
   end.
 Definition expected_tree (schema_location no_ns_schema_location : option str) (evs : list wevent) : option enode :=
-  option_map (add_root_attrs (root_extra schema_location no_ns_schema_location)) (itree_of_events evs).
+  itree_of_events (with_root_attrs (root_extra schema_location no_ns_schema_location) evs).
 
 (* ------------------------------------------------------------------ says *)
 Definition split_colon (s : str) : option str * str :=
